@@ -50,7 +50,7 @@ struct MEv {
   bool touched_in_pass = false;     // deleted / re-added by a callback during the current pass
   int fired_in_pass = 0; short fired_what = 0;
 };
-struct PassRec { std::vector<std::pair<int, int>> lt_fired; bool may_pass = false; };   // (event, what) of non-ET events, sorted
+struct PassRec { std::vector<std::pair<int, int>> lt_fired, et_fired; bool may_pass = false; };   // (event, what) of non-ET events, sorted
 struct Run { std::vector<PassRec> passes; const char *method = ""; };
 struct World {
   struct event_base *base = nullptr; MSlot sl[NSLOT]; MEv e[NEV]; int backend = 0; int features = 0; struct event *sigev = nullptr;
@@ -147,7 +147,7 @@ void io_cb(evutil_socket_t fd, short what, void *arg) {
   if (sl.gen > 1) w.saw_reuse_fire = true;
   if (sl.special) w.nt_state = true;
   for (int j = 0; j < NEV; j++) if (j != i && w.e[j].ev && w.e[j].added_at_probe && w.e[j].slot == m.slot && w.e[j].what != m.what) w.nt_multi = true;
-  if (!m.et) w.run->passes.back().lt_fired.push_back({i, (int)what});
+  if (!m.et) w.run->passes.back().lt_fired.push_back({i, (int)what}); else w.run->passes.back().et_fired.push_back({i, (int)what});
   if (!m.persist) model_del(m), m.touched_in_pass = false;   // removed before its callback runs; it may re-add itself below
   switch (m.cb_action) {
     case 1: do_del(i, "    in-cb "); w.saw_cb_change = true; break;
@@ -201,7 +201,7 @@ void one_pass(int lf) {
   }
   for (int i = 0; i < NEV; i++) { MEv &m = w.e[i]; m.continuous = m.ev && m.added && m.added_at_probe && !m.touched_in_pass; }
   for (int k = 0; k < NSLOT; k++) w.sl[k].truth_prev_valid = w.sl[k].open;
-  std::sort(w.run->passes.back().lt_fired.begin(), w.run->passes.back().lt_fired.end());
+  std::sort(w.run->passes.back().lt_fired.begin(), w.run->passes.back().lt_fired.end()); std::sort(w.run->passes.back().et_fired.begin(), w.run->passes.back().et_fired.end());
 }
 
 void run_script(const std::vector<Op> &ops, int backend, int sigmode, int wseed, bool allow_closed, bool allow_et, Run *run) {
@@ -310,11 +310,14 @@ extern "C" int LLVMFuzzerTestOneInput(const uint8_t *data, size_t size) {
   Run runs[4]; A = Agg();
   for (int b = 0; b < nb; b++) run_script(ops, b, sig0 /* same for all runs: whether an otherwise empty base polls at all depends on it */, wseed, allow_closed, allow_et, &runs[b]);
   // differential: non-ET (event, what) multisets per pass must agree; once a pass contains an open ("may") condition the runs may
-  // legitimately drift apart, so comparison with poll/select stops there (the two epoll variants share the kernel mechanism: compared throughout)
+  // legitimately drift apart, so comparison with poll/select stops there (the two epoll variants share the kernel mechanism: compared until their edge-triggered firings differ)
   for (int b = 1; b < nb; b++) {
     CHECK(runs[b].passes.size() == runs[0].passes.size(), "C04/backends-disagree", "%s made %zu passes, %s made %zu", runs[0].method, runs[0].passes.size(), runs[b].method, runs[b].passes.size());
     for (size_t p = 0; p < runs[0].passes.size(); p++) {
       if (b >= 2 && (runs[0].passes[p].may_pass || runs[b].passes[p].may_pass)) break;
+      // an edge-triggered event is only a "may": the changelist coalesces an add+del of the same turn into no epoll_ctl at all, plain epoll
+      // issues a MOD that re-arms the edge.  Once the ET firings differ the two histories are different histories (the event stays pending in one).
+      if (runs[0].passes[p].et_fired != runs[b].passes[p].et_fired) break;
       auto &x = runs[0].passes[p].lt_fired, &y = runs[b].passes[p].lt_fired;
       if (x != y) {
         std::string sx, sy; char t[48]; for (auto &q : x) { snprintf(t, sizeof t, " ev%d:0x%x", q.first, q.second); sx += t; } for (auto &q : y) { snprintf(t, sizeof t, " ev%d:0x%x", q.first, q.second); sy += t; }
